@@ -852,7 +852,16 @@ async fn run(_tier: Tier) {
         decoys,
         mk,
         fudge,
-        t0: 1_700_000_000 + sim::draw("t0", 1000),
+        // (One run in ten the clocks read a time close to the epoch - a
+        // board without a battery-backed clock before its first time sync -
+        // or close to where 32 bits of seconds end: the fudge window is a
+        // window there, too.)
+        t0: if sim::chance("t0.odd", 1, 10) {
+            sim::stat("probe.clocks_close_to_the_epoch_or_the_32_bit_limit");
+            *sim::pick("t0.which", &[0u64, 1, 100, 299, 300, 301, 3599, 3600, 3700, (1 << 32) - 100, (1 << 32) - 1, 1 << 32, (1 << 32) + 100])
+        } else {
+            1_700_000_000 + sim::draw("t0", 1000)
+        },
         skew_c: skew("skew.client"),
         skew_s: skew("skew.server"),
     };
